@@ -63,12 +63,25 @@ Definition m_entry (inp : list Z) : list Z :=
   | None => bad_case
   end.
 
+Definition run_core (id : Z) (inp : list Z) : option (list Z) :=
+  if id =? 101 then Some (m_encode inp)
+  else if id =? 102 then Some (m_py_read inp)
+  else if id =? 103 then Some (m_k_parse inp)
+  else if id =? 104 then Some (m_write_events inp)
+  else if id =? 105 then Some (m_entry inp)
+  else if id =? 201 then Some (m_dict inp)
+  else if id =? 202 then Some (m_kernel inp)
+  else None.
+
+(** one runner per model family; the first that knows the id answers *)
+Definition runners : list (Z -> list Z -> option (list Z)) :=
+  [ run_core
+  ].
+
 Definition run_model (id : Z) (inp : list Z) : list Z :=
-  if id =? 101 then m_encode inp
-  else if id =? 102 then m_py_read inp
-  else if id =? 103 then m_k_parse inp
-  else if id =? 104 then m_write_events inp
-  else if id =? 105 then m_entry inp
-  else if id =? 201 then m_dict inp
-  else if id =? 202 then m_kernel inp
-  else bad_case.
+  let fix go (rs : list (Z -> list Z -> option (list Z))) : list Z :=
+      match rs with
+      | [] => bad_case
+      | r :: rest => match r id inp with Some o => o | None => go rest end
+      end in
+  go runners.
